@@ -170,13 +170,13 @@ def check_program(ctx, d, name, text, lang, known_key=None):
                             '  clang binds it to the %s declared at %s'
                             % (where, vp[0], vp[1], lines[vp[0] - 1].strip()[:100], tk,
                                ', '.join('%d:%d' % p for p in sorted(okpos))))
-                    ctx.violation(known_key or keyof(text, pos), what, files={name: text},
+                    exprcmp.report(ctx, known_key or keyof(text, pos), what, files={name: text},
                                   cmd='cppcheck --dump -q --language=%s %s' % (lang, name))
             elif nt is not None and tk not in ('VarDecl', 'ParmVarDecl', 'FieldDecl'):
                 judged += 1
                 what = '%s\n  cppcheck links the token to a variable (declared at %d:%d); clang binds it to a %s' % (
                     where, nt.line, nt.col, tk)
-                ctx.violation(known_key or keyof(text, pos), what, files={name: text},
+                exprcmp.report(ctx, known_key or keyof(text, pos), what, files={name: text},
                               cmd='cppcheck --dump -q --language=%s %s' % (lang, name))
         if varid and varid != '0' and tk in ('VarDecl', 'ParmVarDecl', 'FieldDecl'):
             varid_decls.setdefault(varid, {}).setdefault(tgt, pos)
@@ -196,19 +196,19 @@ def check_program(ctx, d, name, text, lang, known_key=None):
                             '  clang selects the %s declared at %s'
                             % (where, ', '.join('%d:%d' % p for p in sorted(fps)), tk,
                                ', '.join('%d:%d `%s`' % (p[0], p[1], lines[p[0] - 1].strip()[:60]) for p in sorted(okpos))))
-                    ctx.violation(known_key or keyof(text, pos), what, files={name: text},
+                    exprcmp.report(ctx, known_key or keyof(text, pos), what, files={name: text},
                                   cmd='cppcheck --dump -q --language=%s %s' % (lang, name))
             elif f and tk in ('VarDecl', 'ParmVarDecl', 'FieldDecl'):
                 judged += 1
                 what = '%s\n  cppcheck links the token to a function; clang binds it to a %s' % (where, tk)
-                ctx.violation(known_key or keyof(text, pos), what, files={name: text},
+                exprcmp.report(ctx, known_key or keyof(text, pos), what, files={name: text},
                               cmd='cppcheck --dump -q --language=%s %s' % (lang, name))
     for varid, decls in varid_decls.items():
         if len(decls) > 1:
             ps = sorted(decls.values())
             what = ('%s: varId %s is shared by %d different declarations (clang): tokens at %s'
                     % (name, varid, len(decls), ', '.join('%d:%d `%s`' % (p[0], p[1], lines[p[0] - 1].strip()[:50]) for p in ps)))
-            ctx.violation(known_key or keyof(text, ps[1]) + ':varid', what, files={name: text},
+            exprcmp.report(ctx, known_key or keyof(text, ps[1]) + ':varid', what, files={name: text},
                           cmd='cppcheck --dump -q --language=%s %s' % (lang, name))
     ctx.count('hist_links_judged_per_program', min(judged // 50 * 50, 1000))
     if judged >= 20 and nshadow >= 5:
